@@ -50,6 +50,8 @@ def solve(
             raise ValueError(
                 f"Values passed for axis names as constraints must have an integral type, but found value {v} with type {type(v)} and dtype {x.dtype}"
             )
+        if x.size > 0 and np.any(x < 0):
+            raise ValueError(f"Values passed for axis names as constraints must not be negative, but found value {v} for axis {k}")
 
     # Remove unused constraints
     used_axisnames = {expr.name for expr in list(exprs_in) + list(exprs_out) for expr in expr.nodes() if isinstance(expr, stage1.Axis)}
